@@ -14,7 +14,7 @@ RULE = ("exception codes 0..255 x {read, write, write-multi} x {udp-rtu, tcp} x 
         "(transport, keep-alive, command kind, code, j, delay, entry) tuples")
 ASSUMPTIONS = ["reason texts are the standard Modbus exception names (table copied from the specification into refcodec)",
                "virtual clock: 'at once' means zero virtual time between delivery of the exception frame and the return"]
-MUST = ["exception_after_begun_answer", "capability_probe_other_reasons", "rejected_after_a_failed_request_on_the_same_object", "same_request_rejected_twice_in_a_row", "compound_call_write_rejected", "public_entry_es", "poll_blocks_rejected_in_turn", "family_level_rejection", "rejected_after_a_request_served_on_retransmission", "public_entry_dt", "named_setting_write", "two_tcp_objects_overlapping", "command_for_another_unit", "tcp_exception_with_wrong_mbap_length", "second_request_rejected", "rejected_after_lone_fragment", "rejected_udp", "rejected_tcp", "after_drops", "delayed_exception", "unknown_code", "public_entry"]
+MUST = ["rejected_through_connect", "exception_after_begun_answer", "capability_probe_other_reasons", "rejected_after_a_failed_request_on_the_same_object", "same_request_rejected_twice_in_a_row", "compound_call_write_rejected", "public_entry_es", "poll_blocks_rejected_in_turn", "family_level_rejection", "rejected_after_a_request_served_on_retransmission", "public_entry_dt", "named_setting_write", "two_tcp_objects_overlapping", "command_for_another_unit", "tcp_exception_with_wrong_mbap_length", "second_request_rejected", "rejected_after_lone_fragment", "rejected_udp", "rejected_tcp", "after_drops", "delayed_exception", "unknown_code", "public_entry"]
 EXHAUSTIVE = {"quick": True, "thorough": True}
 EPS = 1e-6
 
@@ -250,7 +250,48 @@ def two_objects_part(part):
                                      {"two_objects": True})
 
 
+def connect_entry_part(part):
+    """the documented way to obtain an inverter object - goodwe.connect(host, port, family, ...) - against an inverter that answers the identification
+    read with an exception frame: the caller gets RequestRejectedException with the standard reason, at once, after one transmission"""
+    from .. import env, models
+    g = env.goodwe()
+    for fam, reg in (("ET", 35000), ("DT", 30001)):
+        for port in (8899, 502):
+            for code in (2, 4, 6, 1, 200):
+                sim = models.family_sim(fam)
+                sim.exc_map[(3, reg)] = code
+                res = {}
+
+                async def flow(loop):
+                    t0 = loop.time()
+                    try:
+                        await g.connect("inv0", port, fam, 0, 1, 2)
+                        res["out"] = ("returned", "")
+                    except Exception as e:      # noqa
+                        res["out"] = (type(e).__name__, getattr(e, "message", str(e)))
+                    res["dt"] = loop.time() - t0
+                run = engine.run_custom({("inv0", port): sim}, flow, vtime_cap=600, tx_cap=600)
+                part.evaluations += 1
+                tr = "udp" if port == 8899 else "tcp"
+                case = {"connect_entry": True}
+                ctx = f"connect(family={fam!r}) port {port}: identification read answered with exception code {code}"
+                if run.stop or run.error is not None:
+                    part.violate(f"C08/{tr}/hang", f"{ctx}: {run.stop or repr(run.error)}", case)
+                    continue
+                want = rc.reason(code)
+                if res["out"][0] != "RequestRejectedException":
+                    part.violate(f"C08/{tr}/not-rejected", f"{ctx}: ended {res['out'][0]} ({str(res['out'][1])[:80]})", case)
+                elif res["out"][1] != want:
+                    part.violate(f"C08/{tr}/wrong-reason", f"{ctx}: message {res['out'][1]!r}, expected {want!r}", case)
+                elif len(sim.log) != 1 or res["dt"] > 1e-6:
+                    part.violate(f"C08/{tr}/not-immediate", f"{ctx}: {len(sim.log)} transmissions, ended after {res['dt']} s", case)
+                else:
+                    part.count("rejected_through_connect")
+                part.see(f"connect|{fam}|{port}|{code}")
+
+
 def family_level_part(part):
+    connect_entry_part(part)
     """polls of ET models: (a) the 125-register meter read is refused with ILLEGAL DATA ADDRESS (the documented fallback follows) and the
     58-register read of the SAME poll is answered with another exception code; (b) each single block of the poll in turn (running data,
     battery, second battery, each meter block, MPPT) is answered with an exception code other than ILLEGAL DATA ADDRESS: that rejection must
@@ -503,6 +544,9 @@ def run_shard(spec):
 
 def replay(case):
     part = Part()
+    if case.get("connect_entry"):
+        connect_entry_part(part)
+        return [{"key": v["key"], "msg": v["msg"]} for v in part.violations]
     if case.get("family_level"):
         family_level_part(part)
         return [{"key": v["key"], "msg": v["msg"]} for v in part.violations]
